@@ -187,3 +187,63 @@ def validate_vec(base, trace, tag):
     d = workdir(base, 'val_' + tag)
     copy_specs(d)
     return validate_split(d, 'TraceVec', 'TraceVec.cfg', trace)
+
+
+# ------------------------------------------------------------------------------------------------------------------
+NO_FAULT_OPS = {'at', 'index', 'front', 'back', 'iterate', 'relocate', 'destroy', 'eq', 'ne', 'lt', 'le', 'gt', 'ge'}
+
+
+def fault_script(model_dir, max_probes=None, seed=1):
+    """(state, call) of every exported edge whose call may throw: shortest path to the state, then the probed call
+    (the harness repeats the execution with the k-th throwing event failing, k = 1, 2, ...), then a fixed epilogue."""
+    import pickle
+    path = os.path.join(model_dir, 'faults.script')
+    info_path = os.path.join(model_dir, 'faults.json')
+    if os.path.exists(info_path):
+        return path, json.load(open(info_path))
+    edges = pickle.load(open(os.path.join(model_dir, 'edges.pickle'), 'rb'))
+    init = None
+    out = {}
+    for i, (f, l, t) in enumerate(edges):
+        out.setdefault(f, []).append(i)
+    # the initial state is the one no container exists in
+    for f in out:
+        if '"ex": true' not in f:
+            init = f
+            break
+    from collections import deque
+    prev = {init: None}
+    dq = deque([init])
+    while dq:
+        u = dq.popleft()
+        for ei in out.get(u, ()):
+            v = edges[ei][2]
+            if v not in prev:
+                prev[v] = (u, ei)
+                dq.append(v)
+
+    def path_to(s):
+        p = []
+        while prev[s] is not None:
+            s, ei = prev[s]
+            p.append(ei)
+        p.reverse()
+        return p
+    probes = [i for i, (f, l, t) in enumerate(edges) if l['op'] not in NO_FAULT_OPS]
+    if max_probes and len(probes) > max_probes:
+        rnd = random.Random(seed)
+        probes = sorted(rnd.sample(probes, max_probes))
+    with open(path, 'w') as fo:
+        for i in probes:
+            f, l, t = edges[i]
+            for ei in path_to(f):
+                fo.write(label_line(edges[ei][1]) + '\n')
+            fo.write('!' + label_line(l) + '\n')
+            c = l['c']
+            fo.write('?pushBackRv %d 0 0 0 1 0 - 0 0\n' % c)
+            fo.write('?insert1rv %d 0 0 0 2 0 - 0 0\n' % c)
+            fo.write('?clear %d 0 0 0 0 0 - 0 0\n' % c)
+            fo.write('reset\n')
+    info = dict(probes=len(probes), edges=len(edges))
+    json.dump(info, open(info_path, 'w'))
+    return path, info
